@@ -64,15 +64,12 @@ Theorem tie_LinearHist_Add : forall (h : LinearHist_rec) (x : Q), wf h -> no_ove
 Proof.
   intros h x Hwf (Hlo & Hhi & Hb). unfold gen_LinearHist_Add. rewrite (tie_LinearHist_bin h x Hwf).
   destruct h as [mn mx d lo hi bins]. unfold wf in *. unfold to_hstate, lin_add, lin_slot, dispatch, h_incr. proj.
-  set (b := lin_bin mn mx (length bins) x). unfold go_len, go_uadd.
-  destruct (b <? 0)%Z eqn:E1; proj.
-  - rewrite wrap_u_small by exact Hlo. repeat split; assumption.
-  - destruct (Z.of_nat (length bins) <=? b)%Z eqn:E2; proj.
-    + rewrite wrap_u_small by exact Hhi. repeat split; assumption.
-    + apply Z.ltb_ge in E1. apply Z.leb_gt in E2.
-      unfold go_upd, go_idx. replace (b <? 0)%Z with false by (symmetry; apply Z.ltb_ge; exact E1).
-      rewrite upd_incr by (try exact Hb; lia).
-      repeat split; try reflexivity. rewrite incr_nth_length. exact Hwf.
+  set (b := lin_bin mn mx (length bins) x). unfold go_len, go_uadd, go_upd, go_idx.
+  (* every comparison of either side, then each consistent leaf is one of the three updates *)
+  zcases; cbn [andb orb negb]; proj; try (exfalso; lia);
+    rewrite ?(wrap_u_small 64 (lo + 1)) by exact Hlo; rewrite ?(wrap_u_small 64 (hi + 1)) by exact Hhi;
+    rewrite ?upd_incr by (try exact Hb; lia);
+    repeat split; try reflexivity; try assumption; rewrite incr_nth_length; exact Hwf.
 Qed.
 
 Theorem tie_LinearHist_Counts : forall h : LinearHist_rec,
